@@ -54,9 +54,18 @@ int act (string arg) {
   return 1;
 }
 
+// present() asks every member of an inventory; an object answers to its own harness id
+int id (string s) {
+  VL ("hb " + oid + " id 0");
+  run ("id", 0);
+  VL ("he " + oid + " id");
+  return s == oid;
+}
+
 void x_aa (string verb) { add_action ("act", verb); }
 int x_cmd (string verb) { return command (verb); }
 void x_mv (object d) { move_object (d); }
+object x_mvs (string p) { move_object (p); return environment (); }
 void x_ec () { enable_commands (); }
 void x_dc () { disable_commands (); }
 void x_ln (string s) { set_living_name (s); }
